@@ -1,6 +1,7 @@
 package sim
 
 import (
+	"encoding/json"
 	"fmt"
 	"sort"
 	"strings"
@@ -37,6 +38,12 @@ type Variant struct {
 	// the last time no event subscription existed.
 	Seq     int // sequence number of custom events
 	Counter int
+	// Flush: a system.reset (or query event) covering this variant has been
+	// published since the last silent mutation: the next get answer serves the
+	// actual state. Until then get answers serve the announced view, i.e. silent
+	// mutations become visible to the gateway-facing side only through a reset
+	// or query event, as the protocol demands of a service.
+	Flush bool
 }
 
 func (v *Variant) key() string { return v.Name + "?" + v.Query }
@@ -182,8 +189,55 @@ func collJSON(c []Val, f func(Val) string) string {
 
 // GetResult renders the result object of a get response and announces the state.
 func (v *Variant) GetResult() string {
-	v.announce()
-	return v.resultBody(true)
+	never := (v.Type == 'm' && v.AModel == nil) || (v.Type == 'c' && v.AColl == nil)
+	if never || v.Flush {
+		v.announce()
+		v.Flush = false
+	}
+	return v.announcedBody(true)
+}
+
+// announcedBody renders the announced view.
+func (v *Variant) announcedBody(withQuery bool) string {
+	var body string
+	if v.Type == 'm' {
+		body = `"model":` + modelJSON(v.AModel, Val.ServiceJSON)
+	} else {
+		body = `"collection":` + collJSON(v.AColl, Val.ServiceJSON)
+	}
+	if withQuery && v.Query != "" {
+		body += `,"query":` + jstr(v.Query)
+	}
+	return "{" + body + "}"
+}
+
+// applyAnnounced applies an announced event's delta to the announced view.
+func (v *Variant) applyAnnounced(kind, key string, idx int, val *Val) {
+	switch kind {
+	case "set":
+		if v.AModel != nil && val != nil {
+			v.AModel[key] = *val
+		}
+	case "del":
+		if v.AModel != nil {
+			delete(v.AModel, key)
+		}
+	case "add":
+		if v.AColl != nil && val != nil && idx >= 0 && idx <= len(v.AColl) {
+			c := make([]Val, 0, len(v.AColl)+1)
+			c = append(c, v.AColl[:idx]...)
+			c = append(c, *val)
+			c = append(c, v.AColl[idx:]...)
+			v.AColl = c
+		}
+	case "rem":
+		if v.AColl != nil && idx >= 0 && idx < len(v.AColl) {
+			c := make([]Val, 0, len(v.AColl))
+			c = append(c, v.AColl[:idx]...)
+			c = append(c, v.AColl[idx+1:]...)
+			v.AColl = c
+		}
+	}
 }
 
 func (v *Variant) resultBody(withQuery bool) string {
@@ -281,6 +335,10 @@ func (v *Variant) Dirty() bool {
 // state (as a service answering a query request would), and announces.
 func (v *Variant) QueryEvents() string {
 	var evs []string
+	if (v.Type == 'm' && v.AModel == nil) || (v.Type == 'c' && v.AColl == nil) {
+		v.announce()
+		return `{"events":[]}`
+	}
 	if v.Type == 'm' {
 		keys := map[string]bool{}
 		for k := range v.Model {
@@ -338,4 +396,71 @@ func collEqual(a, b []Val) bool {
 		}
 	}
 	return true
+}
+
+// markFlush marks the variants covered by a system.reset payload's resource
+// patterns: their next get answer serves the actual state.
+func (s *Service) markFlush(payload string) {
+	var p struct {
+		Resources []string `json:"resources"`
+	}
+	if json.Unmarshal([]byte(payload), &p) != nil {
+		return
+	}
+	for _, v := range s.variants {
+		for _, pat := range p.Resources {
+			if RefPatternMatch(pat, v.Name) {
+				v.Flush = true
+			}
+		}
+	}
+}
+
+// RefPatternValid is the reference validity predicate for resource patterns:
+// non-empty dot-separated tokens of printable non-space ASCII without '?',
+// '*' only as a whole token, '>' only as the whole last token.
+func RefPatternValid(p string) bool {
+	if p == "" {
+		return false
+	}
+	toks := strings.Split(p, ".")
+	for i, t := range toks {
+		if t == "" {
+			return false
+		}
+		for j := 0; j < len(t); j++ {
+			b := t[j]
+			if b < 33 || b > 126 || b == '?' {
+				return false
+			}
+			if (b == '*' || b == '>') && len(t) != 1 {
+				return false
+			}
+		}
+		if t == ">" && i != len(toks)-1 {
+			return false
+		}
+	}
+	return true
+}
+
+// RefPatternMatch is the reference matcher: * is exactly one token, > is one or more trailing tokens.
+func RefPatternMatch(p, name string) bool {
+	if !RefPatternValid(p) || name == "" {
+		return false
+	}
+	pt := strings.Split(p, ".")
+	nt := strings.Split(name, ".")
+	for i, t := range pt {
+		if t == ">" {
+			return len(nt) > i
+		}
+		if i >= len(nt) {
+			return false
+		}
+		if t != "*" && t != nt[i] {
+			return false
+		}
+	}
+	return len(pt) == len(nt)
 }
